@@ -45,7 +45,7 @@ func runC05rules(cfg Config, r *Result) {
 			r.Dist("mutant-accepted-by-both:" + m.Rule)
 		}
 	}
-	budget := cfg.N(9000, 250000)
+	budget := r.Evaluations + cfg.N(9000, 250000) // relative: this runs after C05's own oracles in the same Result
 	for _, p := range progs {
 		if run(p, "base") != "both-accept" {
 			continue
